@@ -39,8 +39,8 @@ TRUSTED = [
     "axioms: none (Print Assumptions = Closed under the global context for every theorem)",
     "hand-written models Base/Adapters.v of std::io::{Cursor, BufReader, default_read_exact} (rustc 1.95 as installed), "
     "futures-util 0.3.34 io::{Cursor, BufReader, ReadExact}, mediasan-common skip.rs / async_skip.rs / sync.rs, "
-    "webpsan ChunkDataReader; tied to the code by the correspondence batch of this check (ChunkDataReader is a private "
-    "type: it is reached only through webpsan::sanitize, in the C06 area, and has no direct batch here)",
+    "webpsan ChunkDataReader; tied to the code by the correspondence batch of this check (ChunkDataReader is a private type: the "
+    "cfg(signalapp_mp4san_verif) hook webpsan::verif_reader re-exports it and the `cdr` cases drive it directly, one and two levels deep)",
     "the specification Base/Cursor.v (ideal forward-only cursor; a read may be short but never empty before the end)",
     "extraction (ExtrOcamlBasic only), OCaml 4.13.1, ocaml/adapt.ml (stack parser, Obj.repr for the existential reader state)",
     "Rust harness harness/src/adapt.rs building the real adapter stacks (exact types, no extra indirection); rustc/cargo",
@@ -61,6 +61,10 @@ RULE = ("hist cases: (a) corpus; (b) exhaustive: every operation sequence of len
         "ideal cursor like every other history; (d) boundary amounts 2^63-1, 2^63, 2^64-1-pos, 2^64-pos, 2^64-1 (these leave the stream: model "
         "vs implementation only); (e) out-of-stream read_exact / skip followed by queries. thorough adds Rust-side exhaustive sweeps "
         "(histsweep: all sequences of length <= 5 (BufReader over Cursor, std and futures) / <= 4 (four more stacks) over r/x/s with amounts {0,1,2,c,c+1,b,b+1} and p, l checked against an ideal cursor inside the harness). "
+        "(f) cdr cases: webpsan's ChunkDataReader (through the hook webpsan::verif_reader) over 5 sync stacks: declared chunk lengths 0..17 with bodies "
+        "shorter / equal / longer than declared, every operation sequence of length <= 2 (quick) / <= 3 (thorough) over amounts around the body "
+        "length and the BufReader(8) capacity, nested chunk readers (inner length beyond the outer body), random histories; judged by an ideal "
+        "cursor over the parent's bytes that ends with the chunk body and reports the parent's positions and length. "
         "A case is non-trivial when the history contains a skip or read_exact followed by a later position/length query or read; "
         "distinct = distinct case lines.")
 EXHAUSTIVE = {"quick": True, "thorough": True}
@@ -179,6 +183,9 @@ def gen(run):
                                             pre + "s%d;p;x2;p;l;r3;p" % a), "huge-skip-within"
     yield from huge_histories(rng, 300 if run.tier == "quick" else 6000)
 
+    # (f) webpsan's ChunkDataReader driven directly (hook webpsan::verif_reader)
+    yield from cdr_cases(run)
+
     # (d) boundary amounts beyond i64::MAX, (e) leaving the stream
     big = [2 ** 63 - 1, 2 ** 63, 2 ** 64 - 1, 2 ** 64 - 2, 2 ** 64 - 4, 2 ** 64 - 5, 2 ** 63 + 1]
     bst = ["cursor", "seek(cursor)", "buf(cursor)", "buf(seek(cursor))", "fcursor", "seek(fcursor)", "fbuf(fcursor)", "fbuf(seek(pc))",
@@ -193,6 +200,78 @@ def gen(run):
         for ops in ("x5;p;l;r1;x1", "r1;x4;p;l", "s5;p;l;r1;x1;p", "r1;s9;p;r1;l;p;s0;p", "x0;s0;r0;p;l", "r9;r9;p;x1;p",
                     "s4;p;r1;x1;p;s1;p;l"):
             yield line(st, caps, data_of(4), ops.split(";")), "out-of-stream"
+
+
+def chunk(name, ln, body):
+    return name + ln.to_bytes(4, "little") + body
+
+
+CDR_STACKS = [("cursor", []), ("seek(cursor)", []), ("buf(cursor)", [3]), ("box(cursor)", []), ("buf(seek(cursor))", [5])]
+
+
+def cdr_line(depth, st, caps, data, ops):
+    return "cdr %d %s %s %s %s" % (depth, st, ",".join(map(str, caps)) if caps else "-", ac.hexs(data), ";".join(ops))
+
+
+def cdr_cases(run):
+    """ChunkDataReader: a cursor over the parent's bytes that ends with the chunk body.  Declared lengths 0..20 with bodies
+    shorter than, equal to and longer than declared (following bytes belong to the parent), every operation sequence of
+    length <= 2 (quick) / 3 (thorough) over amounts around the body length and the BufReader(8) capacity, nested chunks,
+    long random histories."""
+    rng = run.rng
+    deep = run.tier != "quick"
+    for L in (0, 1, 2, 5, 8, 9, 12, 17):
+        for extra in (-3, 0, 1, 6):
+            if L + extra < 0:
+                continue
+            data = chunk(b"ABCD", L, data_of(L + extra, 7))
+            al = ["r0", "r1", "r3", "r8", "r9", "r%d" % (L + 2), "x1", "x2", "x%d" % L, "x%d" % (L + 1), "s0", "s1", "s2", "s%d" % L,
+                  "s%d" % (L + 1), "p", "l"]
+            al = list(dict.fromkeys(al))
+            for st, caps in (CDR_STACKS if deep else CDR_STACKS[:3]):
+                for n in ((1, 2, 3) if deep and L in (0, 1, 5, 9) else (1, 2)):
+                    for seq in itertools.product(al, repeat=n):
+                        yield cdr_line(1, st, caps, data, seq), "cdr-exhaustive"
+    # nested: the outer body holds an inner chunk; the inner declared length may exceed what the outer body has left
+    for L1 in (8, 9, 12, 16, 24):
+        for L2 in (0, 1, 3, 4, 8, 9, 20):
+            for extra in (0, 5):
+                inner = chunk(b"EFGH", L2, data_of(max(L1 - 8, 0) + extra, 11))
+                data = chunk(b"ABCD", L1, inner)
+                room = max(min(L1 - 8, L2), 0)
+                al = list(dict.fromkeys(["r1", "r9", "x1", "x%d" % room, "x%d" % (room + 1), "s0", "s1", "s%d" % room, "s%d" % (room + 1), "p", "l"]))
+                for st, caps in CDR_STACKS[:3]:
+                    for n in (1, 2):
+                        for seq in itertools.product(al, repeat=n):
+                            yield cdr_line(2, st, caps, data, seq), "cdr-nested"
+    for _ in range(300 if not deep else 3000):
+        L = rng.choice([0, 1, 7, 8, 9, 40, 200, 1000])
+        body = bytes(rng.randrange(256) for _ in range(max(0, L + rng.choice([-5, 0, 0, 1, 30]))))
+        depth = rng.choice([1, 1, 2])
+        if depth == 2:
+            L2 = rng.choice([0, 1, 8, max(L - 8, 0), max(L - 9, 0), L])
+            body = chunk(b"EFGH", L2, body)
+            data = chunk(b"ABCD", L, body)
+            room = max(min(L - 8, L2), 0)
+        else:
+            data = chunk(b"ABCD", L, body)
+            room = L
+        st, caps = rng.choice(CDR_STACKS)
+        ops, pos = [], 0
+        for _ in range(rng.randint(3, 40)):
+            left = max(room - pos, 0)
+            k = rng.random()
+            if k < 0.3:
+                a = rng.choice([0, 1, 7, 8, 9, rng.randint(0, 20), left, left + 1]); ops.append("r%d" % a); pos += min(a, left)
+            elif k < 0.5:
+                a = rng.choice([0, 1, 8, 9, left, rng.randint(0, 12)]); a = min(a, left) if rng.random() < 0.95 else a
+                ops.append("x%d" % a); pos += a
+            elif k < 0.75:
+                a = rng.choice([0, 1, 8, 9, left, rng.randint(0, 30)]); a = min(a, left) if rng.random() < 0.95 else a
+                ops.append("s%d" % a); pos += a
+            else:
+                ops.append(rng.choice(["p", "l"]))
+        yield cdr_line(depth, st, caps, data, ops), "cdr-random"
 
 
 VCUR_STACKS = ["vcur", "seek(vcur)", "buf(vcur)", "buf(seek(vcur))", "buf(buf(seek(vcur)))", "box(buf(vcur))", "mut(seek(vcur))",
@@ -288,8 +367,10 @@ def same(line, impl, model):
 def classify(line, impl):
     if line.startswith("histsweep"):
         return "sweep-" + (impl.split()[0] if impl else "missing")
-    if impl in ("panic", "missing", "unknown-stack"):
+    if impl in ("panic", "missing", "unknown-stack", "no-hook", "hdr-err"):
         return impl
+    if line.startswith("cdr"):
+        return "cdr-" + ("leaves-stream" if not ac.stays_within(line) else "err" if "e:" in impl else "within")
     if not ac.stays_within(line):
         return "leaves-stream"
     return "err" if "e:" in impl else "within"
@@ -298,7 +379,7 @@ def classify(line, impl):
 def nontrivial(line, impl):
     if line.startswith("histsweep"):
         return True
-    ops = line.split()[4].split(";")
+    ops = line.split()[5 if line.startswith("cdr") else 4].split(";")
     for i, o in enumerate(ops):
         if o and o[0] in "sx" and o[1:] != "0" and any(p and p[0] in "plr" for p in ops[i + 1:]):
             return True
@@ -369,7 +450,7 @@ LEVEL_TEXT = ("Theorems (Coq, unbounded): every provided adapter model - SeekSki
               "capacities and stack depths is what a proof decides; the batch ties the model to the real std/futures/mediasan code.")
 LEVEL_NOTE = ("Trusted: Coq kernel; the hand-written models of std/futures BufReader+Cursor and of mediasan's adapters (tied by the batch); "
               "extraction and the OCaml driver; the Rust harness; the 60-line Python ideal cursor. No axioms. ChunkDataReader is private to "
-              "webpsan: its model is proved but compared with the code only indirectly (through webpsan::sanitize in the C06 area). "
+              "webpsan: it is driven directly through the cfg-guarded hook webpsan::verif_reader (cdr cases). "
               "Operations that leave the stream (skip past the end, amounts above i64::MAX) are compared model vs implementation only.")
 TECHNIQUE = "Coq refinement proof (abstraction function + invariant, induction over histories) + differential check of extracted models vs real adapter stacks"
 DESIGN_REF = "DESIGN.md section 7 (C15), Appendix A"
